@@ -462,6 +462,18 @@ func ReplayFile(t *testing.T, path string) (reproduced bool, detail string) {
 // runAs executes f on a goroutine tagged with the given generation (code of the system under test always runs on
 // goroutines of its generation, like a process's own threads) and waits for it to return. It reports false if the
 // generation was frozen (killed) before f returned.
+// runAsWithin is runAs that gives up after d of simulated time; it reports whether f returned.
+func runAsWithin(name string, gen int, d time.Duration, f func()) bool {
+	done := make(chan struct{})
+	simrt.GoNamed(name, gen, func() {
+		f()
+		close(done)
+	})
+	tm := time.NewTimer(d)
+	defer tm.Stop()
+	return simrt.Select("runAs "+name, false, simrt.RecvCase(done), simrt.RecvCase(tm.C)).I == 0
+}
+
 func runAs(name string, gen int, f func()) bool {
 	done := make(chan struct{})
 	simrt.GoNamed(name, gen, func() {
